@@ -429,7 +429,9 @@ func takeSnapshotTrim(p *Program, id string, root *ssa.Function) []Obligation {
 			Detail: "after the unlocked StateMachine.Snapshot call nothing compares the snapshot's label with lastIncludedIndex before trimming the log: a snapshot installed meanwhile is overwritten by an older boundary"}}
 	}
 	labelTerm := strings.TrimSuffix(labelIdx, ".Index") + ".Term"
-	sp := NewSpace(CmpAtom("label?lastInclIdx", labelIdx, "r.lastIncludedIndex"), GhostAtom("boundarySet", "no", "yes"), GhostAtom("boundaryTermSet", "no", "yes"))
+	// the label is the entry captured before the window; the atom records the outcome of the one re-test of that
+	// captured value against the boundary after the window (a history atom: the store follows in the same section)
+	sp := NewSpace(CmpAtom("label?lastInclIdx", labelIdx, "r.lastIncludedIndex").Hist(), GhostAtom("boundarySet", "no", "yes"), GhostAtom("boundaryTermSet", "no", "yes"))
 	a := NewAnalysis(p, sp)
 	lii := p.Field("Raft.lastIncludedIndex")
 	a.Hook = func(a *Analysis, f *Frame, in ssa.Instruction, st State) State {
